@@ -38,6 +38,7 @@ type WorkerResult struct {
 	WallS        float64           `json:"wall_s"`
 	Stopped      string            `json:"stopped,omitempty"`
 	Next         int               `json:"next"`
+	KnownHits    int               `json:"known_hits"`
 	Tainted      bool              `json:"tainted,omitempty"`
 	Distinct     []uint64          `json:"distinct"`
 	Traces       []uint64          `json:"traces,omitempty"`
@@ -52,6 +53,59 @@ type ViolationReport struct {
 	Trace  uint64 `json:"trace"`
 	// Triggers lists the known-finding trigger situations that actually occurred in the run.
 	Triggers []string `json:"triggers"`
+	Known    bool     `json:"known,omitempty"` // matched an entry of known_findings.json (not minimised)
+}
+
+// knownEntry is one "known" entry of /verif/known_findings.json.
+type knownEntry struct {
+	Property  string `json:"property"`
+	Signature string `json:"signature"`
+	Trigger   string `json:"trigger"`
+}
+
+func loadKnown(path, prop string) (out []knownEntry) {
+	if path == "" {
+		return nil
+	}
+	b, err := os.ReadFile(path)
+	if err != nil {
+		return nil
+	}
+	var f struct {
+		Known []knownEntry `json:"known"`
+	}
+	if json.Unmarshal(b, &f) != nil {
+		return nil
+	}
+	for _, k := range f.Known {
+		if k.Property == prop {
+			out = append(out, k)
+		}
+	}
+	return
+}
+
+// isKnown mirrors match_known of the driver: signature glob (a trailing * matches any
+// suffix) and the trigger must have occurred in the run.
+func isKnown(known []knownEntry, sig string, triggers []string) bool {
+	for _, k := range known {
+		ok := k.Signature == sig
+		if n := len(k.Signature); n > 0 && k.Signature[n-1] == '*' {
+			ok = len(sig) >= n-1 && sig[:n-1] == k.Signature[:n-1]
+		}
+		if !ok {
+			continue
+		}
+		if k.Trigger == "" {
+			return true
+		}
+		for _, t := range triggers {
+			if t == k.Trigger {
+				return true
+			}
+		}
+	}
+	return false
 }
 
 func envInt(name string, def int) int {
@@ -141,6 +195,8 @@ func TestWorker(t *testing.T) {
 	traces := os.Getenv("COLSIM_TRACES") != ""
 	res.Next = to
 	sigs := map[string]bool{}
+	known := loadKnown(os.Getenv("COLSIM_KNOWN"), prop)
+	knownSeen := map[string]bool{}
 	for run := from; run < to; run++ {
 		if time.Now().After(deadline) {
 			res.Stopped = fmt.Sprintf("wall-clock cap reached at run %d of [%d,%d)", run, from, to)
@@ -193,6 +249,21 @@ func TestWorker(t *testing.T) {
 		if w.viol != nil {
 			v := w.viol
 			rep := ViolationReport{Sig: v.Sig, Detail: v.Detail, Run: run, Trace: st.Trace, Triggers: w.triggerList()}
+			if isKnown(known, v.Sig, rep.Triggers) {
+				rep.Known = true
+				if !knownSeen[v.Sig] {
+					knownSeen[v.Sig] = true
+					res.Violations = append(res.Violations, rep)
+				}
+				res.KnownHits++
+				if w.tainted() {
+					res.Stopped = fmt.Sprintf("worker state tainted by %s at run %d", v.Sig, run)
+					res.Next = run + 1
+					res.Tainted = true
+					break
+				}
+				continue
+			}
 			if !sigs[v.Sig] && replayDir != "" {
 				sigs[v.Sig] = true
 				cs.Expect = v
